@@ -16,10 +16,15 @@ POOL = {
   Real h(start = hmax * 0.5, min = 0, max = hmax, nominal = A * 2);
 {EXTRA_DECL}  input Real q(fixed = true);
   output Real y;
+  parameter Real cap;
+  Real hm;
+  Real hx;
 equation
   A * der(h) = q - {c} * h // leak{NLSP}  - 0.{e}
   ;
 {EXTRA_EQ}  y = {d} * h;
+  hm = min(h, cap);
+  hx = max(h * {a}, hmax) + abs(q);
 end Tank;
 """},
         "lib": {},
